@@ -109,6 +109,7 @@ class Session:
         self.runs = {}       # bench name -> final state dict
         self.exc = None
         self.run_objs = []
+        self.build_envs = []
 
 
 def run_session(raw, script, data_file, argv=(), scheduler="batch", build_script=None, exp_name=None,
@@ -123,6 +124,7 @@ def run_session(raw, script, data_file, argv=(), scheduler="batch", build_script
         if stdin_input is not None and args == "/bin/sh":
             text = stdin_input.decode()
             ses.builds.append((text, cwd))
+            ses.build_envs.append(dict(env) if env is not None else None)
             ses.events.append(("build", text))
             if build_script is None:
                 return 0, "", ""
